@@ -151,6 +151,9 @@ def _record(job):
                     if not reads_done:
                         continue
                     a = reads_done[-1 - a.get("back", 0) % min(4, len(reads_done))]     # an earlier read exactly as it was resolved
+                if a.get("q_from_read") and reads_done and "q" in reads_done[-1]:
+                    a = {k: v for k, v in a.items() if k not in ("adapt", "q_from_read")}
+                    a["q"] = reads_done[-1]["q"]          # the write selects by the very query the last read used
                 if "adapt" in a:
                     a = adapt_op(a, events[-1]["store"] if events else init)
                 if a["op"] in ("remove", "drop_measurement", "update"):
